@@ -178,25 +178,28 @@ def run(ctx):
     exe = build(ctx)
     ctx.log('driver built:', exe)
 
-    # 1. design step: P-layer and I-layer model checks incl. liveness (must pass on the unchanged spec)
+    # 1. design step: P-layer and I-layer model checks incl. liveness (must pass on the unchanged spec),
+    #    and the edge dumps of the single-producer I-graphs; all TLC runs side by side
     mc = os.path.join(SPEC, 'MC_SpscQueue.tla')
-    for c in ['MC_SpscQueue.cfg', 'MC_SpscQueue_2p.cfg']:
-        r = vlib.tlc_must_pass(ctx, mc, os.path.join(SPEC, c), args=('-noGenerateSpecTE',))
-        ctx.log('TLC %s: %d distinct states' % (c, r.distinct))
-    icfgs = ['MC_QueueImpl_c1.cfg', 'MC_QueueImpl_c2.cfg', 'MC_QueueImpl_c4.cfg', 'MC_QueueImpl_c2_eager.cfg', 'MC_QueueImpl_2p_c1.cfg']
+    mcs = [(mc, 'MC_SpscQueue.cfg'), (mc, 'MC_SpscQueue_2p.cfg')]
+    mcs += [(IMPL, c) for c in ['MC_QueueImpl_c1.cfg', 'MC_QueueImpl_c2.cfg', 'MC_QueueImpl_c4.cfg', 'MC_QueueImpl_c2_eager.cfg',
+                                'MC_QueueImpl_2p_c1.cfg']]
     if ctx.thorough:
-        icfgs += ['MC_QueueImpl_2p_c2.cfg', 'MC_QueueImpl_2p_c4.cfg']
-    with concurrent.futures.ThreadPoolExecutor(max_workers=4) as ex:
-        futs = [(c, ex.submit(vlib.tlc_must_pass, ctx, IMPL, os.path.join(SPEC, c), workers=4, heap='4g',
-                              args=('-noGenerateSpecTE',))) for c in icfgs]
+        mcs += [(IMPL, 'MC_QueueImpl_2p_c2.cfg'), (IMPL, 'MC_QueueImpl_2p_c4.cfg')]
+    t1 = [('MC_QueueImpl_c1_edges.cfg', 1, 2), ('MC_QueueImpl_c2_edges.cfg', 2, 3), ('MC_QueueImpl_c4_edges.cfg', 4, 5)]
+    with concurrent.futures.ThreadPoolExecutor(max_workers=12) as ex:
+        futs = [(c, ex.submit(vlib.tlc_must_pass, ctx, m, os.path.join(SPEC, c), workers=2, heap='4g',
+                              args=('-noGenerateSpecTE',))) for m, c in mcs]
+        dumps = [ex.submit(edge_dump, ctx, c) for c, _, _ in t1]
         for c, f in futs:
             r = f.result()
-            ctx.log('TLC %s (safety + AllDelivered under FairSpec): %d distinct states' % (c, r.distinct))
+            ctx.log('TLC %s%s: %d distinct states' % (c, ' (safety + AllDelivered under FairSpec)' if 'Impl' in c else '', r.distinct))
+        dumps = [f.result() for f in dumps]
 
     # 2. T1: every edge of the single-producer I-graphs replayed on the real queue (mismatch = drift, never an alarm)
     tot = 0
-    for cfgname, cap, k in [('MC_QueueImpl_c1_edges.cfg', 1, 2), ('MC_QueueImpl_c2_edges.cfg', 2, 3), ('MC_QueueImpl_c4_edges.cfg', 4, 5)]:
-        n, mism = edge_replay(ctx, exe, cfgname, cap, k)
+    for (cfgname, cap, k), edges in zip(t1, dumps):
+        n, mism = edge_replay(ctx, exe, edges, cfgname, cap, k)
         tot += n
     ctx.cov['t1_unique_edges'] = tot
 
@@ -211,13 +214,12 @@ def run(ctx):
             runs.append(('X 2 60 %d %d cap=%d k=%d %s' % (big, hc, cap, k, extra), (0,), cap))
     # the real usage pattern: two producers share the consumer's QueueReader through FewToFewBiQueue
     runs.append(('X 3 40 %d %d cap=1 k=1 multi' % (big, hc), (0, 2), 1))
+    runs.append(('X 3 40 %d %d cap=1 k=2 multi spare=0' % (big, hc), (0, 2), 1))
     if ctx.thorough:
         runs.append(('X 3 40 %d %d cap=2 k=2 multi spare=0' % (big, hc), (0, 2), 2))
         runs.append(('X 3 40 %d %d cap=1 k=2 multi spare=1' % (big, hc), (0, 2), 1))
-    else:
-        runs.append(('X 3 40 %d %d cap=1 k=2 multi spare=0' % (400000, hc), (0, 2), 1))
     # T2: random walks, many more items than the MC bound
-    nw = 20000 if ctx.thorough else 1500
+    nw = 4000 if ctx.thorough else 120
     runs.append(('W 2 400 %d %d 0 cap=4 k=64 spare=64' % (nw, ctx.seed + 1), (0,), 4))
     runs.append(('W 2 400 %d %d 0 cap=2 k=64 spare=64 eager' % (nw // 2, ctx.seed + 2), (0,), 2))
     runs.append(('W 3 400 %d %d 0 cap=2 k=16 spare=16 multi' % (nw // 2, ctx.seed + 3), (0, 2), 2))
@@ -225,26 +227,25 @@ def run(ctx):
     def explore(run_):
         return scheck.run_explorer(ctx, exe, [run_[0]])
 
-    groups = {}
+    hist_groups = {}
     all_stats = []
-    with concurrent.futures.ThreadPoolExecutor(max_workers=8) as ex:
+    with concurrent.futures.ThreadPoolExecutor(max_workers=max(2, vlib.NCPU - 2)) as ex:
         for run_, (stats, hists, viols) in zip(runs, ex.map(explore, runs)):
             s = stats[0]
             all_stats.append(dict(cmd=run_[0], **s))
-            ctx.log('explorer %s: %s' % (run_[0], json.dumps(s)))
+            ctx.log('explorer %s: %s' % (run_[0].strip(), json.dumps(s)))
             ctx.add('impl_states', s.get('states', 0))
             ctx.add('impl_steps', s.get('steps', 0))
             ctx.add('impl_transitions', s.get('transitions', 0))
             ctx.add('impl_histories_distinct', s.get('histories', s.get('walks', 0)))
             for v in viols[:2]:
-                ctx.violation('driver P-monitor (%s): %s' % (run_[0], v['what']),
+                ctx.violation('driver P-monitor (%s): %s' % (run_[0].strip(), v['what']),
                               {'kind': 'schedule', 'config': run_[0], 'path': v.get('path'), 'events': v['ev']})
-            groups.setdefault((run_[1], run_[2]), []).extend(hists)
+            hist_groups.setdefault((run_[1], run_[2]), []).extend(hists)
 
     # 4. every distinct history validated by TLC against the P-layer
-    total = 0
-    samples = []
-    for (prod, cap), hists in sorted(groups.items()):
+    groups = []
+    for (prod, cap), hists in sorted(hist_groups.items()):
         seen, ul = set(), []
         for h in hists:
             ln = hist_to_line(h)
@@ -252,16 +253,17 @@ def run(ctx):
             if key not in seen:
                 seen.add(key)
                 ul.append(ln)
-        if not ul:
-            continue
-        cfg = trace_cfg(ctx, prod, cap)
-        rej = validate(ctx, cfg, ul, 'queue-p%d-c%d' % (len(prod), cap))
-        ctx.log('TLC validated %d distinct histories (producers %s, capacity %d) against SpscQueue.tla; rejected: %d' % (
-            len(ul), list(prod), cap, len(rej)))
-        for i in rej[:2]:
-            ctx.violation('history is not a behaviour of SpscQueue.tla (P-layer), producers=%s capacity=%d' % (list(prod), cap),
-                          {'kind': 'history', 'producers': list(prod), 'capacity': cap,
-                           'events': ul[i]['ev'] if isinstance(i, int) else i})
+        if ul:
+            groups.append(('queue-p%d-c%d' % (len(prod), cap), trace_cfg(ctx, prod, cap), ul))
+    rejected = validate(ctx, groups)
+    total = 0
+    samples = []
+    for label, cfg, ul in groups:
+        rej = rejected[label]
+        ctx.log('TLC validated %d distinct histories (%s) against SpscQueue.tla; rejected: %d' % (len(ul), label, len(rej)))
+        for i in sorted(rej, key=lambda x: len(ul[x]['ev']) if isinstance(x, int) else 0)[:2]:
+            ctx.violation('history is not a behaviour of SpscQueue.tla (P-layer), %s' % label,
+                          {'kind': 'history', 'group': label, 'events': ul[i]['ev'] if isinstance(i, int) else i})
         total += len(ul)
         ctx.add('impl_distinct', sum(1 for ln in ul if nontrivial(ln)))
         samples += ul[:1] + ul[-1:]
@@ -276,8 +278,8 @@ def run(ctx):
         'weak fairness; every unique edge of the three single-producer I-graphs replayed on the real OneToOneUniQueue/QueueReader '
         'with state and result equality; bounded exhaustive schedule exploration of the real code (state de-duplication) for the '
         'same capacities, the eager variant and the real FewToFewBiQueue with two producers; seeded random walks with 64 items; '
-        'every distinct call/return history validated by TLC against SpscQueue.tla.  Non-trivial = history in which a producer '
-        'and the consumer overlap.')
+        'every distinct call/return history validated by TLC against SpscQueue.tla.  Non-trivial = history in which operations '
+        'of two processes overlap.')
     ctx.assumptions += [
         'sequentially consistent atomics (the player serialises accesses; weak-memory reorderings are not explored)',
         'a ring-slot memcpy is one indivisible access (scheduling point of its own); theIn/theOut are process-local',
